@@ -424,6 +424,240 @@ def _kind_lean(kind: str) -> str:
     return "[" + ", ".join(one(p) for p in parts) + "]"
 
 
+def _binds_name(node, name):
+    """does this statement / expression (re)bind `name`? (assignment, augmented assignment, loop / with target, walrus, del)"""
+    for x in ast.walk(node):
+        if isinstance(x, ast.Name) and x.id == name and isinstance(x.ctx, (ast.Store, ast.Del)):
+            return True
+    return False
+
+
+def _size_through_name(mod, sz, pv, site):
+    """`size_bytes=<name>` : accepted when the name is bound exactly once in the function, by `len(v)` of the very
+    variable `v` stored as payload (or wrapped in io.BytesIO), in a statement that precedes the constructor call in
+    one of its enclosing blocks, and `v` is not re-bound anywhere between that statement and the call.
+    (A size taken BEFORE the payload is transformed is the defect class this excludes.)"""
+    fn = mod.enclosing_fn(site)
+    if fn is None:
+        return "other:size-name-outside-function"
+    inner = pv
+    if isinstance(pv, ast.Call) and isinstance(pv.func, ast.Attribute) and pv.func.attr == "BytesIO" and len(pv.args) == 1:
+        inner = pv.args[0]
+    if not isinstance(inner, ast.Name):
+        return "other:size-name-payload-not-a-variable"
+    binds = [st for st in ast.walk(fn) if isinstance(st, ast.stmt) and not isinstance(st, (ast.FunctionDef, ast.AsyncFunctionDef, ast.ClassDef))
+             and any(isinstance(x, ast.Name) and x.id == sz.id and isinstance(x.ctx, (ast.Store, ast.Del)) for x in _own_targets(st))]
+    if len(binds) != 1:
+        return "other:size-name-bound-%d-times" % len(binds)
+    b = binds[0]
+    if not (isinstance(b, ast.Assign) and len(b.targets) == 1 and isinstance(b.targets[0], ast.Name) and isinstance(b.value, ast.Call)
+            and isinstance(b.value.func, ast.Name) and b.value.func.id == "len" and len(b.value.args) == 1 and not b.value.keywords
+            and ast.dump(b.value.args[0]) == ast.dump(inner)):
+        return "other:size-name-not-len-of-payload"
+    precedes = any(b in lst[:i] for _, _, lst, i in mod.stmt_chain(site))
+    if not precedes:
+        return "other:size-name-bound-elsewhere"
+    for st in ast.walk(fn):
+        if isinstance(st, ast.stmt) and st is not b and b.lineno < st.lineno <= site.lineno and not isinstance(st, (ast.For, ast.While, ast.If, ast.With, ast.Try)):
+            if any(isinstance(x, ast.Name) and x.id == inner.id and isinstance(x.ctx, (ast.Store, ast.Del)) for x in _own_targets(st)):
+                return "other:payload-rebound-after-size-taken"
+        if isinstance(st, (ast.For, ast.With)) and b.lineno < st.lineno <= site.lineno:
+            tg = [st.target] if isinstance(st, ast.For) else [i.optional_vars for i in st.items if i.optional_vars is not None]
+            if any(isinstance(x, ast.Name) and x.id == inner.id for t in tg for x in ast.walk(t)):
+                return "other:payload-rebound-after-size-taken"
+    return "lenOfPayload"
+
+
+def _own_targets(st):
+    """the binding targets of a simple statement (not those of statements nested in it)"""
+    out = []
+    if isinstance(st, ast.Assign):
+        for t in st.targets:
+            out += list(ast.walk(t))
+    elif isinstance(st, (ast.AugAssign, ast.AnnAssign)):
+        out += list(ast.walk(st.target))
+    elif isinstance(st, ast.Delete):
+        for t in st.targets:
+            out += list(ast.walk(t))
+    elif isinstance(st, ast.For):
+        out += list(ast.walk(st.target))
+    elif isinstance(st, ast.With):
+        for i in st.items:
+            if i.optional_vars is not None:
+                out += list(ast.walk(i.optional_vars))
+    if not isinstance(st, (ast.For, ast.While, ast.If, ast.With, ast.Try)):
+        out += [x for x in ast.walk(st) if isinstance(x, ast.NamedExpr) for x in ast.walk(x.target)]
+    return out
+
+
+# ----------------------------------------------------------------------------- BLIP pipeline constants
+IMG_UTILS = "sharepoint2text/parsing/extractors/util/image_utils.py"
+BLIP_SITES = [("sharepoint2text/parsing/extractors/ms_legacy/ppt_extractor.py", "_extract_images_from_pictures_stream"),
+              ("sharepoint2text/parsing/extractors/ms_legacy/xls_extractor.py", "_extract_images_from_workbook")]
+
+
+def _blip_constants(notes):
+    iu = fresh_import("sharepoint2text.parsing.extractors.util.image_utils")
+    types = [int(x) for x in iu.BLIP_TYPES]
+    # signatures in the order detect_image_type tests them (AST), values and content types from the runtime
+    sigs = []
+    tree = parse(IMG_UTILS)
+    fn = next((n for n in ast.walk(tree) if isinstance(n, ast.FunctionDef) and n.name == "detect_image_type"), None)
+    if fn is None:
+        notes.append("image_utils.detect_image_type not found")
+    else:
+        names = []
+        for n in ast.walk(fn):
+            if isinstance(n, ast.Compare):
+                for c in n.comparators:
+                    if isinstance(c, ast.Name) and c.id.endswith("_SIGNATURE"):
+                        names.append((n.lineno, n.col_offset, c.id))
+        for _, _, nm in sorted(names):
+            v = getattr(iu, nm, None)
+            if not isinstance(v, bytes):
+                notes.append(f"image_utils.{nm} is not bytes")
+                continue
+            got = iu.detect_image_type(v + b"\0" * 8)
+            if got is None:
+                notes.append(f"detect_image_type does not recognise its own {nm}")
+                continue
+            sigs.append((list(v), got[1]))
+    # the instances with a secondary UID, as the two extractors test them
+    second = None
+    for rel, fname in BLIP_SITES:
+        try:
+            t = parse(rel)
+        except Exception as e:  # noqa: BLE001
+            notes.append(f"{rel}: {e}")
+            continue
+        f = next((n for n in ast.walk(t) if isinstance(n, ast.FunctionDef) and n.name == fname), None)
+        if f is None:
+            notes.append(f"{rel}: {fname} not found")
+            continue
+        found = None
+        for n in ast.walk(f):
+            if isinstance(n, ast.Compare) and len(n.ops) == 1 and isinstance(n.ops[0], ast.In) and isinstance(n.comparators[0], ast.Tuple) \
+                    and all(isinstance(e, ast.Name) and e.id.startswith("BLIP_INSTANCE") for e in n.comparators[0].elts):
+                found = sorted(int(getattr(iu, e.id)) for e in n.comparators[0].elts)
+        if found is None:
+            notes.append(f"{rel}: {fname}: secondary-UID instance test not found")
+        elif second is not None and found != second:
+            notes.append(f"{rel}: {fname}: secondary-UID instances differ from the other extractor")
+        else:
+            second = found
+    return {"types": types, "emf": int(iu.BLIP_TYPE_EMF), "wmf": int(iu.BLIP_TYPE_WMF), "dib": int(iu.BLIP_TYPE_DIB),
+            "second": second or [], "sigs": sigs}
+
+
+# ----------------------------------------------------------------------------- process state behind the metadata
+_HOST_ATTRS = {"exists", "resolve", "stat", "lstat", "is_file", "is_dir", "is_symlink", "absolute", "cwd", "getcwd", "realpath", "abspath",
+               "readlink", "expanduser", "samefile", "iterdir", "glob", "rglob", "home", "listdir", "scandir", "walk", "open", "read_bytes", "read_text"}
+_MUTATORS = {"append", "add", "setdefault", "update", "extend", "insert", "pop", "popitem", "clear", "remove", "discard", "__setitem__"}
+
+
+def _module_level_names(tree):
+    out = set()
+    for n in tree.body:
+        if isinstance(n, ast.Assign):
+            for t in n.targets:
+                if isinstance(t, ast.Name):
+                    out.add(t.id)
+        elif isinstance(n, ast.AnnAssign) and isinstance(n.target, ast.Name):
+            out.add(n.target.id)
+    return out
+
+
+def _fn_index(tree):
+    """module-level functions and methods: name -> [FunctionDef] (methods also under their bare name)"""
+    idx = {}
+    for n in tree.body:
+        if isinstance(n, (ast.FunctionDef, ast.AsyncFunctionDef)):
+            idx.setdefault(n.name, []).append(n)
+        elif isinstance(n, ast.ClassDef):
+            for m in n.body:
+                if isinstance(m, (ast.FunctionDef, ast.AsyncFunctionDef)):
+                    idx.setdefault(m.name, []).append(m)
+    return idx
+
+
+def _callees(fn, idx):
+    out = set()
+    for n in ast.walk(fn):
+        if isinstance(n, ast.Call):
+            if isinstance(n.func, ast.Name) and n.func.id in idx:
+                out.add(n.func.id)
+            elif isinstance(n.func, ast.Attribute) and isinstance(n.func.value, ast.Name) and n.func.value.id in ("self", "cls") and n.func.attr in idx:
+                out.add(n.func.attr)
+        elif isinstance(n, ast.Name) and n.id in idx and isinstance(n.ctx, ast.Load):
+            out.add(n.id)  # a function passed around (decorator argument, callback)
+    out.discard(fn.name)
+    return out
+
+
+def _closure(start, idx):
+    seen, todo = [], list(start)
+    while todo:
+        nm = todo.pop()
+        if nm in seen:
+            continue
+        seen.append(nm)
+        for f in idx.get(nm, []):
+            todo += sorted(_callees(f, idx))
+    return seen
+
+
+def _touches_host_direct(fn):
+    for n in ast.walk(fn):
+        if isinstance(n, ast.Attribute) and n.attr in _HOST_ATTRS:
+            return True
+        if isinstance(n, ast.Name) and n.id == "open":
+            return True
+    return False
+
+
+def _globals_written(fn, modnames):
+    out = set()
+    for n in ast.walk(fn):
+        if isinstance(n, ast.Global):        # (`nonlocal` is state of one call, not of the process)
+            out |= set(n.names)
+        elif isinstance(n, ast.Call) and isinstance(n.func, ast.Attribute) and n.func.attr in _MUTATORS \
+                and isinstance(n.func.value, ast.Name) and n.func.value.id in modnames:
+            out.add(n.func.value.id)
+        elif isinstance(n, (ast.Subscript, ast.Attribute)) and isinstance(n.ctx, (ast.Store, ast.Del)) \
+                and isinstance(n.value, ast.Name) and n.value.id in modnames:
+            out.add(n.value.id)
+    return sorted(out)
+
+
+def _state_sites(notes):
+    """functions reachable from FileMetadataInterface.populate_from_path (inside data_types), every memoised function
+    and every function of the package that writes module-level state (`global`, or a module-level container it
+    mutates): decorators, module state written, whether the file system / cwd is consulted"""
+    rows = []
+    for rel in _py_files():
+        try:
+            tree = parse(rel)
+        except SyntaxError as e:
+            notes.append(f"{rel}: {e}")
+            continue
+        idx = _fn_index(tree)
+        modnames = _module_level_names(tree)
+        on_path = set(_closure(["populate_from_path"], idx)) if rel == DT else set()
+        if rel == DT and "populate_from_path" not in idx:
+            notes.append("data_types: populate_from_path not found")
+        for nm, fns in sorted(idx.items()):
+            for f in fns:
+                decs = [ast.unparse(d) for d in f.decorator_list]
+                memo = any("cache" in d.lower() or "memo" in d.lower() for d in decs)
+                gw = _globals_written(f, modnames)
+                if not (memo or nm in on_path or gw):
+                    continue
+                clo = _closure([nm], idx)
+                touches = any(_touches_host_direct(g) for c in clo for g in idx.get(c, []))
+                rows.append((os.path.basename(rel), nm, decs, gw, touches, nm in on_path))
+    return rows
+
+
 # ----------------------------------------------------------------------------- the generator
 @generator("Iface")
 def gen_iface() -> str:
@@ -547,6 +781,8 @@ def gen_iface() -> str:
                     if isinstance(pv, ast.Call) and isinstance(pv.func, ast.Attribute) and pv.func.attr == "BytesIO" and len(pv.args) == 1:
                         inner = pv.args[0]
                     kind = "lenOfPayload" if ast.dump(inner) == ast.dump(sz.args[0]) else "other:len-of-something-else"
+                elif sz is not None and pv is not None and isinstance(sz, ast.Name):
+                    kind = _size_through_name(mod, sz, pv, n)
                 else:
                     kind = "other:" + ("size-without-payload" if pv is None else "payload-without-size" if sz is None else "size-not-len")
                 size_sites.append((rel, n.lineno, target, kind))
@@ -599,6 +835,19 @@ def gen_iface() -> str:
     L.append("/-- document-property readers: (format, metadata field, source tag/key, post-processing) -/")
     L.append("def metadataMaps : List MdRow := " + lean_list(
         "{ fmt := %s, field := %s, tag := %s, post := .%s }" % (lean_str(a), lean_str(b), lean_str(c), d) for a, b, c, d in md_rows) + "\n")
+    bc = _blip_constants(notes)
+    L.append("/-- OfficeArt BLIP pipeline constants of the legacy PPT / XLS picture extractors (image_utils, runtime values) -/")
+    L.append("def blipTypes : List Nat := [" + ", ".join(str(x) for x in bc["types"]) + "]")
+    L.append(f"def blipEmf : Nat := {bc['emf']}\ndef blipWmf : Nat := {bc['wmf']}\ndef blipDib : Nat := {bc['dib']}")
+    L.append("def blipSecondUid : List Nat := [" + ", ".join(str(x) for x in bc["second"]) + "]")
+    L.append("def imageSignatures : List (List Nat × String) := " + lean_list(
+        f"([{', '.join(str(b) for b in sig)}], {lean_str(ct)})" for sig, ct in bc["sigs"]) + "\n")
+    L.append("/-- functions reachable from populate_from_path, every memoised function and every writer of module-level state of the package -/")
+    L.append("def stateSites : List FnState := " + lean_list(
+        "{ file := %s, name := %s, decorators := [%s], globalsWritten := [%s], touchesHost := %s, onMetadataPath := %s }" % (
+            lean_str(f), lean_str(nm), ", ".join(lean_str(d) for d in decs), ", ".join(lean_str(g) for g in gw),
+            "true" if th else "false", "true" if op else "false")
+        for f, nm, decs, gw, th, op in _state_sites(notes)) + "\n")
     L.append("/-- translator cross-check notes; must be empty -/")
     L.append("def notes : List String := " + lean_list(lean_str(n) for n in notes) + "\n")
     L.append("end S2T.Gen.Iface\n")
